@@ -10,7 +10,9 @@ from vf.model import layout
 LOCALS = ['.loop', '.done', '.x1']
 FILE_LABELS = ['_tmp', '_cnt', '_buf']
 GLOBALS = ['main', 'sub_a', 'Data1', 'tbl_x', 'vec', 'fin', 'prt', 'q_entry', 'loop', 'done', 'G7', 'zz_top']
-REGS = ['a', 'b', 'sp']
+# the last three are declared in the ISA with these very spellings (upper / mixed case): a label or constant of exactly
+# that spelling is a register name too
+REGS = ['a', 'b', 'sp', 'SPQ', 'Rx', 'IDX']
 KEYWORDS = ['org', 'fill', 'zero', 'byte', 'cstr', 'align', 'memzone', 'define', 'include', 'LSB', 'BYTE1', 'if', 'endif', 'mute']
 
 
@@ -125,7 +127,7 @@ class C06(core.Check):
         'shadow:local-name-in-2-regions', 'shadow:local-name-in-2-files', 'shadow:file-label-in-2-files',
         'illegal:cross-region-ref', 'illegal:cross-file-ref', 'illegal:ref-after-org', 'illegal:ref-after-memzone',
         'illegal:undefined', 'illegal:dup-global', 'illegal:dup-file', 'illegal:dup-local', 'illegal:orphan-local',
-        'illegal:register-name', 'illegal:keyword-name', 'illegal:dup-global-across-files', 'illegal:dup-same-value',
+        'illegal:register-name', 'illegal:register-name/declared-in-upper-case', 'illegal:keyword-name', 'illegal:dup-global-across-files', 'illegal:dup-same-value',
         'dead-branch-inside-region', 'dead-branch-between-local-def-and-use', 'reference-on-a-muted-line', 'const-between-def-and-use',
         'files:1', 'files:2', 'files:3+', 'expect:ACCEPT', 'expect:REJECT', 'ref:forward', 'ref:backward']}
 
@@ -315,6 +317,7 @@ class C06(core.Check):
                     out.append(rng.choice(['#unmute', '#emit']))
             fl[f] = '\n'.join(out) + '\n'
         isa = gen_prog.layout_isa(16, endian='big', zones=zones)
+        isa['general']['registers'] = list(isa['general']['registers']) + ['SPQ', 'Rx', 'IDX']
         fn, text = isamod.render_isa(isa, 'json')
         fl[fn] = text
         tags.add('expect:' + m['kind'])
@@ -465,6 +468,8 @@ class C06(core.Check):
             return True
         if kind == 'register-name':
             nm = rng.choice(REGS)
+            if nm != nm.lower():
+                tags.add('illegal:register-name/declared-in-upper-case')
             if rng.random() < 0.5:
                 files[f] += [{'k': 'label', 'name': nm}, {'k': 'marker', 'v': 250}]
             else:
